@@ -1,6 +1,7 @@
 /- C12 — path decoding and normalisation match the documented semantics. -/
 import HtpModel.Lemmas.Normalize
 import HtpModel.Pinned.Eq
+import HtpModel.Lemmas.CFunsNormalize
 
 namespace Htp.C12
 open Htp.Decode Htp.Gen
@@ -73,5 +74,32 @@ example : Htp.Gen.x2cHi 0x34 + Htp.Gen.x2cLo 0x31 = 0x41 ∧ Htp.Gen.x2cSeparabl
     with tools/pin_tables.py). The model follows a regenerated table, so without this a changed table entry would be invisible to the
     correspondence; with it the change breaks this theorem by name. -/
 theorem C12_decoder_tables_pinned : Htp.Pinned.DecoderTablesPinned := Htp.Pinned.decoderTables_pinned
+
+/-- **C12 (the dot-segment remover, the code itself)**: htp_normalize_uri_path_inplace, translated from the current source (Gen/CFuns.lean:
+    one shared array read at `rpos` and written at `wpos`, the pending character `c`, the two copies of "remove the last segment"), run on
+    ANY path below 2^63 bytes, returns, leaves the buffer length unchanged, and the first `len` bytes of the buffer are exactly the model's
+    `normalizePath` - within 2 * len + 2 turns of the main loop, every read and every write inside the buffer. The representation
+    invariant of the proof (`Lemmas/CFunsNormalize.lean`) is `wpos + pending <= rpos <= len`: the write cursor never overtakes the read
+    cursor, which is why rewriting in place is safe. -/
+theorem C12_translated_normalize (d : Bytes) (h1 : d.length < 9223372036854775808) (fuel : Nat) (hf : 2 * d.length + 2 < fuel) :
+    ∃ s', Htp.Gen.C.htp_normalize_uri_path_inplace fuel (Htp.CSem.memOf d) d.length = some (0, s') ∧
+          s'.s__mem.length = d.length ∧
+          s'.s__mem.take s'.s__len.toNat = Htp.CSem.memOf (normalizePath d) ∧ 0 ≤ s'.s__len ∧ s'.s__len ≤ d.length :=
+  Htp.CFuns.htp_normalize_uri_path_inplace_eq d h1 fuel hf
+
+/-- ... hence what the C function leaves in the buffer has no "." and no ".." segment (`C12_normalize_no_dot_segments` about the model,
+    carried over to the translated code), for every path -/
+theorem C12_translated_normalize_no_dot_segments (d : Bytes) (h1 : d.length < 9223372036854775808) :
+    ∃ out : Bytes, (Htp.Gen.C.htp_normalize_uri_path_inplace (2 * d.length + 3) (Htp.CSem.memOf d) d.length).map
+        (fun r => r.2.s__mem.take r.2.s__len.toNat) = some (Htp.CSem.memOf out) ∧
+      ∀ s ∈ segs out, s ≠ [0x2e] ∧ s ≠ [0x2e, 0x2e] := by
+  refine ⟨normalizePath d, ?_, C12_normalize_no_dot_segments d⟩
+  have h := Htp.CFuns.htp_normalize_uri_path_inplace_bytes d h1 (2 * d.length + 3) (by omega)
+  obtain ⟨r, hr, he⟩ := Option.map_eq_some_iff.mp h
+  rw [hr]
+  exact congrArg some (congrArg Prod.snd he)
+
+example : (Htp.Gen.C.htp_normalize_uri_path_inplace 20 (Htp.CSem.memOf (b!"/a/../b")) 7).map
+    (fun r => r.2.s__mem.take r.2.s__len.toNat) = some (Htp.CSem.memOf (b!"/b")) := by decide +kernel
 
 end Htp.C12
